@@ -47,6 +47,9 @@ class StmtMixin:
   def st_Assert(self, node, env):
     c = self.truth(self.ev(node.test, env))
     if self.branch(z3.Not(c)):
+      # an `assert` states a belief of the developers that often rests on facts outside the model: an exit through it is
+      # explored, but what fails on that path is not counted as a refutation of the property (abstraction counter)
+      self.path.abstracted += 1
       self.raise_('AssertionError')
 
   def st_Assign(self, node, env):
